@@ -9,6 +9,7 @@ import (
 	"math"
 	"strconv"
 	"strings"
+	"sync"
 	"unicode"
 	"unsafe"
 )
@@ -405,7 +406,12 @@ Top:
 	return &n
 }
 
-var spaces = []byte{'\n'}
+var (
+	spaces = []byte{'\n'}
+	// spacesMu protects the growth of spaces as printing can occur from
+	// multiple threads.
+	spacesMu sync.Mutex
+)
 
 func (p *Printer) appendTree(b []byte, n *node, offset, closes int) []byte {
 	if 0 < len(n.special) {
@@ -430,9 +436,12 @@ func (p *Printer) appendTree(b []byte, n *node, offset, closes int) []byte {
 			off += n.elements[0].size + 1
 		}
 		VerifPoint("printer.spaces")
+		spacesMu.Lock()
 		if len(spaces)-1 < off {
 			spaces = append(spaces, bytes.Repeat([]byte{' '}, off-len(spaces)+1)...)
 		}
+		indent := spaces[:off+1]
+		spacesMu.Unlock()
 		pos := offset + 1
 		for i, e := range n.elements {
 			t := 0
@@ -453,7 +462,7 @@ func (p *Printer) appendTree(b []byte, n *node, offset, closes int) []byte {
 					b = append(b, " .."...)
 					break
 				}
-				b = append(b, spaces[:off+1]...)
+				b = append(b, indent...)
 				b = p.appendTree(b, e, off, t)
 				pos = off + e.size + 1
 			}
